@@ -196,6 +196,9 @@ def run_pairs(cfg, counters, violations, samples):
     return n
 
 
+_RES = [0]
+
+
 def run_tables(cfg, counters, violations, samples):
     """first-match order, methods and dispatch 404 on small tables"""
     from mpgameserver.http_server import Router, Route, Request, Response
@@ -207,16 +210,54 @@ def run_tables(cfg, counters, violations, samples):
     for case in range(cfg["n"]):
         k = r.randint(1, 4)
         chosen = [(r.choice(pats), r.choice(["GET", "POST"])) for _ in range(k)]
+        ws_flags = [r.random() < 0.15 for _ in range(k)]         # some GET routes are websocket routes
         for order in (itertools.permutations(range(k)) if k <= 3 else [tuple(r.sample(range(k), k))]):
             router = Router()
             routes = []
-            for j in order:
-                pat, meth = chosen[j]
-                name = "r%d" % j
-                routes.append(Route(name, meth, pat, (lambda req, _n=name: Response(payload=_n))))
+            if case % 4 == 3:
+                # the table comes from a Resource subclass: routes are registered in the order the handlers are WRITTEN in the
+                # class body (method names deliberately not in alphabetical order)
+                import types
+                import mpgameserver.http_server as H
+                _RES[0] += 1
+                cname = "T%dResource" % _RES[0]
+                mnames = r.sample(["zeta", "alpha", "mid", "beta", "omega", "b2", "a9", "Handler", "index"], k)
+                if mnames == sorted(mnames) and k > 1:
+                    mnames.reverse()
+
+                def body(ns, _order=order, _mn=mnames):
+                    for pos, j in enumerate(_order):
+                        pat, meth = chosen[j]
+                        full = cname.replace("Resource", "").lower() + "." + _mn[pos]
+                        if ws_flags[j] and meth == "GET":
+                            def h(self, request, opcode, payload):
+                                return None
+                            deco = H.websocket(pat)
+                        else:
+                            def h(self, request, _n=full):
+                                return Response(payload=_n)
+                            deco = (H.get if meth == "GET" else H.delete)(pat)      # (post/put demand a Content-Length: DELETE stands in)
+                        h.__name__ = _mn[pos]
+                        ns[_mn[pos]] = deco(h)
+                R = types.new_class(cname, (H.Resource,), {}, body)
+                reg_routes = list(R().routes())            # what the library hands to the router, in ITS order
+                by_name = {rt.name: rt for rt in reg_routes}
+                prefix = cname.replace("Resource", "").lower() + "."
+                # the reference order is the order of the class body
+                routes = [by_name[prefix + nm] for nm in mnames if prefix + nm in by_name]
+                if len(routes) != k:
+                    violations.append({"mechanism": "resource-route-missing", "msg": "Resource with %d decorated handlers yields %d routes" % (k, len(routes)), "case": {}})
+                counters.inc("tables_from_resource_classes")
+            else:
+                for j in order:
+                    pat, meth = chosen[j]
+                    name = "r%d" % j
+                    routes.append(Route(name, meth, pat, (lambda req, _n=name: Response(payload=_n)), websocket=(ws_flags[j] and meth == "GET")))
             # register one by one or in one call; when one by one, look paths up BETWEEN the registrations (a route
             # registered later must be found although the same path was looked up - and missed - before)
-            if case % 2:
+            if case % 4 == 3:
+                router.registerRoutes(reg_routes)
+            elif case % 2:
                 router.registerRoutes(routes)
             else:
                 probe = [r.choice(paths) for _ in range(6)]
@@ -275,6 +316,14 @@ def run_tables(cfg, counters, violations, samples):
                 else:
                     if resp.status_code == 404:
                         bad = bad or "dispatch 404 although %s matches" % want[0].name
+                    elif want[0].websocket:
+                        # the first registered matching route is a websocket route and the request carries no Upgrade header: that
+                        # route answers (400), no later route does
+                        if resp.status_code != 400:
+                            bad = bad or "dispatch status %d (payload %r): the first registered matching route %s is a websocket route, a plain GET gets its 400" % (
+                                resp.status_code, resp.payload, want[0].name)
+                        else:
+                            counters.inc("dispatch_websocket_route_without_upgrade")
                     elif resp.payload != want[0].name.encode():
                         bad = bad or "dispatch ran %r, expected %s" % (resp.payload, want[0].name)
                     else:
@@ -328,7 +377,8 @@ def finish(tier, seed, results):
     m = merge(results)
     inconclusive = []
     need(m["counters"], ["pairs", "ref_match", "ref_nomatch", "bindings_checked", "table_lookups",
-                         "dispatch_404", "dispatch_routed", "lookups_between_registrations"], inconclusive)
+                         "dispatch_404", "dispatch_routed", "lookups_between_registrations", "tables_from_resource_classes",
+                         "dispatch_websocket_route_without_upgrade"], inconclusive)
     maxp, maxs = BOUNDS[tier]
     cov = {
         "evaluations": m["evaluations"],
